@@ -66,6 +66,9 @@ func (f *Block) Call(s *slip.Scope, args slip.List, depth int) (result slip.Obje
 			}
 			return
 		}
+		if _, ok := result.(*GoTo); ok {
+			return
+		}
 	}
 	return
 }
